@@ -964,6 +964,47 @@ func (st *State) builtin(f *Frame, ins ssa.Instruction, b *ssa.Builtin, cc *ssa.
 	return Value{S: "Tuple"}
 }
 
+// appendStructs: append to a slice of structs. The result is the fresh array r (in-place growth
+// is not modelled for slices of structs, see the assumption): its first len(s) elements are
+// copies of the old ones, field by field, and the appended ones follow (exact for up to four).
+// Struct elements live at (elem ref i), their fields in the per-sort field arrays.
+func (st *State) appendStructs(r string, s, t Value, tl string, elemT types.Type) {
+	leafs := map[string]Sort{}
+	st.sortsOfStore(elemT, leafs)
+	base, off, ln := app("s_ref", s.Term), app("s_off", s.Term), app("s_len", s.Term)
+	const iv = "qi_app"
+	probe := st.loadH(st.heap, elemAddr(base, app("bvadd", off, iv)), elemT).Term
+	if strings.Contains(probe, "imm_") || strings.Contains(probe, "pf_") || strings.Contains(probe, "elems_") {
+		return // fields in special arrays (immutable, package-private, arrays): nothing is said
+	}
+	oldElem := probe
+	cnt := int64(-1)
+	for k := int64(0); k <= 4; k++ {
+		if tl == bvInt(k, 64) || strings.HasSuffix(t.Term, " "+bvInt(k, 64)+" "+bvInt(k, 64)+")") {
+			cnt = k
+		}
+	}
+	var newVals []Value
+	for k := int64(0); k < cnt; k++ {
+		newVals = append(newVals, st.loadH(st.heap, elemAddr(app("s_ref", t.Term), app("bvadd", app("s_off", t.Term), bvInt(k, 64))), elemT))
+	}
+	for name, srt := range leafs {
+		if !strings.HasPrefix(name, "mem_") {
+			continue
+		}
+		a := st.heapGet(st.heap, name, srt)
+		a2 := st.fresh(name, srt)
+		st.heap.m[name] = a2
+		// nothing that existed changes: r is a new object
+		st.assume(fmt.Sprintf("(forall ((a Ref)) (! (=> (not (= (rid a) (rid %s))) (= (select %s a) (select %s a))) :pattern ((select %s a))))", r, a2, a, a2))
+	}
+	newElem := st.loadH(st.heap, elemAddr(r, iv), elemT).Term
+	st.assume(fmt.Sprintf("(forall ((%s (_ BitVec 64))) (! (=> (and (bvsle (_ bv0 64) %s) (bvslt %s %s)) (= %s %s)) :pattern (%s)))", iv, iv, iv, ln, newElem, oldElem, elemAddr(r, iv)))
+	for k, v := range newVals {
+		st.storeMem(elemAddr(r, app("bvadd", ln, bvInt(int64(k), 64))), elemT, v)
+	}
+}
+
 // bseqFrame: the byte ranges of the array na that lie outside [lo, hi) read as they do in old.
 func bseqFrame(na, old, lo, hi string) string {
 	max := bvInt(1<<40, 64)
@@ -1030,6 +1071,11 @@ func (st *State) appendInPlace(freshRes Value, r string, s, t Value, tl, nl stri
 		ob := app("bseq", oldArr, off, ln)
 		st.assume(eq(app("bseq", resArr, resOff, nl), app("cat", ob, tb)))
 		st.assume(eq(app("bseq", ia, off, ln), ob))
+		if ln == bvInt(1, 64) {
+			// appending to a one-byte slice (the table prefix): its bytes are that one byte
+			st.eng.pre.Fun("b1", "((_ BitVec 8)) Bytes")
+			st.assume(eq(ob, app("b1", app("select", oldArr, off))))
+		}
 		st.assume(eq(app("bseq", resArr, app("bvadd", resOff, ln), tl), tb))
 		st.assume(bseqFrame(ia, oldArr, start, app("bvadd", start, tl)))
 	}
@@ -1058,6 +1104,9 @@ func (st *State) appendBuiltin(cc *ssa.CallCommon, args []Value) Value {
 	res := Value{T: T, S: SSlice, Term: app("mk_slice", r, bvInt(0, 64), nl, nc)}
 	if _, isStruct := sl.Elem().Underlying().(*types.Struct); isStruct || (t.S == SStr && es != BV(8)) {
 		st.res.Assumed["append returns a fresh backing array (slices of structs: writes into spare capacity of the old one are not modelled)"] = true
+		if isStruct && t.S == SSlice && !st.eng.freshAppend {
+			st.appendStructs(r, s, t, tl, sl.Elem())
+		}
 		return res
 	}
 	if !st.eng.freshAppend {
